@@ -10,7 +10,8 @@ V = lambda n: ('var', n)
 def ops(g):
     """scope operations on the name _a (letter case varies)"""
     return dict(none=[], assign=[('assign', '_a', g.hf(['sym', 20, 21]))], assign_uc=[('assign', '_A', N(22))], private=[('private', '_a', N(30))], private_uc=[('private', '_A', N(31))],
-                privdecl=[('privdecl', ['_a'])], privdecl_uc=[('privdecl', ['_A'])], params=[('params', ['_a'])])
+                privdecl=[('privdecl', ['_a'])], privdecl_uc=[('privdecl', ['_A'])], params=[('params', ['_a'])],
+                params_missing=[('params', ['_p', '_a'])])      # _this has one element: the second name has no argument and no default, it is still bound (to nil) in this scope
 def wrap(kind, g, body):
     """a construct that runs `body` in a new scope"""
     if kind == 'call': return [('call', None, ('code', body))]
@@ -29,7 +30,7 @@ def wrap(kind, g, body):
     if kind == 'lazy': return [('lazy', 'and', ('bool', True), body + [('bool', True)])]
     raise ValueError(kind)
 KINDS = ['call', 'callargs', 'if', 'ifelse', 'foreach', 'while', 'for', 'switch', 'try', 'apply', 'count', 'lazy']
-OPN = ['none', 'assign', 'assign_uc', 'private', 'private_uc', 'privdecl', 'privdecl_uc', 'params']
+OPN = ['none', 'assign', 'assign_uc', 'private', 'private_uc', 'privdecl', 'privdecl_uc', 'params', 'params_missing']
 
 def nest_prog(k1, o1, k2, o2, outer_bound):
     g = G()
@@ -85,5 +86,5 @@ def replay(spec):
 def run(ctx):
     h = vmh.load()
     progs = programs(ctx['tier'])
-    ob = diffvm.run_obligation('scope.diff', progs, ctx, h, '%d programs: two nested scope-creating constructs (%d kinds) x scope operations on one name (assign / private / private "..." / params, two letter cases), outer binding present or not; per-iteration clearing; globals in 3 namespaces; spawn' % (len(progs), len(KINDS)), case_timeout=600)
+    ob = diffvm.run_obligation('scope.diff', progs, ctx, h, '%d programs: two nested scope-creating constructs (%d kinds) x scope operations on one name (assign / private / private "..." / params with and without an argument for the name, two letter cases), outer binding present or not; per-iteration clearing; globals in 3 namespaces; spawn' % (len(progs), len(KINDS)), case_timeout=600)
     return [ob] if ob else []
